@@ -11,6 +11,7 @@ import (
 	"runtime/debug"
 	"strings"
 	"sync"
+	"sync/atomic"
 	"syscall"
 	"time"
 
@@ -23,15 +24,26 @@ import (
 // ---------------------------------------------------------------- worker side
 
 type beCounter struct {
-	mu sync.Mutex
-	n  int
+	mu  sync.Mutex
+	n   int
+	out *bufio.Writer
 }
 
 func (b *beCounter) ProcessEvent(evt *kanzi.Event) {
-	if evt.Type() == kanzi.EVT_BEFORE_ENTROPY {
+	switch evt.Type() {
+	case kanzi.EVT_BEFORE_ENTROPY:
 		b.mu.Lock()
 		b.n++
 		b.mu.Unlock()
+	case kanzi.EVT_AFTER_HEADER_DECODING:
+		// tell the parent at once which block size the READER took from the header (older header layouts put it
+		// elsewhere): time and memory rules are stated in terms of that size
+		if info := evt.Info(); info != nil && b.out != nil {
+			b.mu.Lock()
+			fmt.Fprintf(b.out, "H %d\n", info.BlockSize)
+			b.out.Flush()
+			b.mu.Unlock()
+		}
 	}
 }
 
@@ -63,7 +75,7 @@ func workerMain() {
 			return
 		}
 		t0 := time.Now()
-		status, nbytes, be := "ok", 0, &beCounter{}
+		status, nbytes, be := "ok", 0, &beCounter{out: out}
 		func() {
 			// a panic escaping Read on the calling goroutine is a violation too: report it, then die like the caller would
 			defer func() {
@@ -112,11 +124,12 @@ func workerMain() {
 
 // SandboxResult is the outcome of one decode in a child process.
 type SandboxResult struct {
-	Status  string // ok, err, zero, panic, died, timeout
-	Bytes   int
-	Millis  int64
-	Reached int    // blocks that reached the entropy stage
-	Detail  string // stderr tail / panic text
+	BlockSize int    // block size the reader took from the header (0 = the header was rejected or never reported)
+	Status    string // ok, err, zero, panic, died, timeout
+	Bytes     int
+	Millis    int64
+	Reached   int    // blocks that reached the entropy stage
+	Detail    string // stderr tail / panic text
 }
 
 type sandboxWorker struct {
@@ -185,13 +198,23 @@ func (s *Sandbox) Decode(stream []byte, jobs uint, budget time.Duration) Sandbox
 		err  error
 	}
 	ch := make(chan reply, 1)
+	var seenBlock int64
 	go func() {
 		if _, err := w.stdin.Write(append(hdr[:], stream...)); err != nil {
 			ch <- reply{"", err}
 			return
 		}
-		line, err := w.stdout.ReadString('\n')
-		ch <- reply{line, err}
+		for {
+			line, err := w.stdout.ReadString('\n')
+			if err == nil && strings.HasPrefix(line, "H ") {
+				var bsz int64
+				fmt.Sscanf(line, "H %d", &bsz)
+				atomic.StoreInt64(&seenBlock, bsz)
+				continue
+			}
+			ch <- reply{line, err}
+			return
+		}
 	}()
 	select {
 	case r := <-ch:
@@ -204,13 +227,13 @@ func (s *Sandbox) Decode(stream []byte, jobs uint, budget time.Duration) Sandbox
 			if len(detail) > 6000 {
 				detail = detail[:3000] + "\n...\n" + detail[len(detail)-3000:]
 			}
-			res := SandboxResult{Status: "died", Detail: strings.TrimSpace(r.line) + "\n" + detail}
+			res := SandboxResult{Status: "died", Detail: strings.TrimSpace(r.line) + "\n" + detail, BlockSize: int(atomic.LoadInt64(&seenBlock))}
 			if strings.HasPrefix(r.line, "R panic") {
 				res.Status = "panic"
 			}
 			return res
 		}
-		var res SandboxResult
+		res := SandboxResult{BlockSize: int(atomic.LoadInt64(&seenBlock))}
 		var q string
 		fmt.Sscanf(r.line, "R %s %d %d %d %q", &res.Status, &res.Bytes, &res.Millis, &res.Reached, &q)
 		res.Detail = q
@@ -238,6 +261,6 @@ func (s *Sandbox) Decode(stream []byte, jobs uint, budget time.Duration) Sandbox
 		if len(detail) > 5000 {
 			detail = detail[:5000]
 		}
-		return SandboxResult{Status: "timeout", Detail: cpu + "\n" + detail}
+		return SandboxResult{Status: "timeout", Detail: cpu + "\n" + detail, BlockSize: int(atomic.LoadInt64(&seenBlock))}
 	}
 }
